@@ -11,6 +11,7 @@ import (
 	"net/http"
 	"net/url"
 	"os"
+	"path/filepath"
 	"regexp"
 	"runtime"
 	"strings"
@@ -469,6 +470,20 @@ func c15(c *ctx) {
 			meta.Samples = append(meta.Samples, rec)
 		}
 	}
+	// a single input handed over by the native fuzzer (thorough tier): every entry point of its kind
+	if f := os.Getenv("C15_INPUT"); f != "" {
+		in, _ := os.ReadFile(f)
+		kind := os.Getenv("C15_KIND")
+		for _, e := range entries[kind] {
+			call(fmt.Sprintf("fuzz/%s/%s/%s", kind, e.name, filepath.Base(f)), kind, e.name, e.f, in, "native-fuzz", false, false, 0)
+		}
+		meta.Evaluations = n
+		meta.Distinct = len(shapes)
+		out.Close()
+		meta.Files = map[string][]string{"records": out.Files}
+		meta.Write(c.dir)
+		return
+	}
 	// scripts from the specification
 	var scripts [][]mop
 	if f := os.Getenv("C15_MUT"); f != "" {
@@ -544,7 +559,8 @@ func c15(c *ctx) {
 		}
 	}
 	okReq := "GET /x HTTP/1.1\r\nHost: h\r\nUpgrade: websocket\r\nConnection: Upgrade\r\nSec-WebSocket-Version: 13\r\nSec-WebSocket-Key: dGhlIHNhbXBsZSBub25jZQ==\r\n"
-	badLines := []string{"", ":", ": v", "NoColon", " : ", "X", "\x00: \x00", "A:" + strings.Repeat(" ", 5000), strings.Repeat("k", 5000) + ": v", "Sec-WebSocket-Key", "Sec-WebSocket-Key:",
+	badLines := []string{"X-Blank: ", "X-Blank:  \t ", "X-Blank:\t", " \t: v", "\t:\t", "Sec-WebSocket-Protocol:  ", "Sec-WebSocket-Extensions: \t", "Host:   ", "Connection:  ", "Upgrade: \t",
+		"", ":", ": v", "NoColon", " : ", "X", "\x00: \x00", "A:" + strings.Repeat(" ", 5000), strings.Repeat("k", 5000) + ": v", "Sec-WebSocket-Key", "Sec-WebSocket-Key:",
 		"Sec-WebSocket-Protocol: ,", "Sec-WebSocket-Protocol: ,,a,,", "Sec-WebSocket-Protocol: \"", "Sec-WebSocket-Extensions: ;", "Sec-WebSocket-Extensions: a;", "Sec-WebSocket-Extensions: a; b=",
 		"Sec-WebSocket-Extensions: a; b=\"", "Sec-WebSocket-Extensions: ,;=", "Sec-WebSocket-Extensions: permessage-deflate; client_max_window_bits=", "Sec-WebSocket-Extensions: permessage-deflate; server_max_window_bits=999999999999999999999",
 		"Connection: ,", "Connection: \"upgrade", "Upgrade:", "Host:"}
